@@ -15,7 +15,7 @@ import (
 // C17 (marketplace): sell-order list queries return exactly the stored orders that satisfy
 // the filter, each with the stored fields (batch denom and ask denom are joined lookups).
 
-func orderInfoOK(o *types.SellOrderInfo, row *api.SellOrder) bool {
+func zzvOrderInfoOK(o *types.SellOrderInfo, row *api.SellOrder) bool {
 	var batch baseapi.Batch
 	bf := zz.OrmRow0(zzinv.TBatch, &batch, row.BatchKey)
 	var market api.Market
@@ -34,12 +34,12 @@ func orderInfoOK(o *types.SellOrderInfo, row *api.SellOrder) bool {
 		zz.And(zz.And(o.Quantity == row.Quantity, o.AskDenom == market.BankDenom), zz.And(zz.And(o.AskAmount == row.AskAmount, o.DisableAutoRetire == row.DisableAutoRetire), exp)))
 }
 
-func checkOrderList(name string, got []*types.SellOrderInfo, want func(row *api.SellOrder) bool) {
+func zzvCheckOrderList(name string, got []*types.SellOrderInfo, want func(row *api.SellOrder) bool) {
 	for i, o := range got {
 		var row api.SellOrder
 		found := zz.OrmRow0(zzinv.TSellOrder, &row, o.Id)
 		zz.Assert(zz.And(found, want(&row)), "C17 "+name+" returns only orders that satisfy the filter")
-		zz.Assert(orderInfoOK(o, &row), "C17 "+name+" returns the stored fields of each order")
+		zz.Assert(zzvOrderInfoOK(o, &row), "C17 "+name+" returns the stored fields of each order")
 		for j := 0; j < i; j++ {
 			zz.Assert(got[j].Id != o.Id, "C17 "+name+" returns no order twice")
 		}
@@ -57,7 +57,7 @@ func checkOrderList(name string, got []*types.SellOrderInfo, want func(row *api.
 
 func VerifHarness_C17_SellOrdersByBatch() {
 	zzinv.Install()
-	k, _ := symKeeper()
+	k, _ := zzvSymKeeper()
 	req := &types.QuerySellOrdersByBatchRequest{}
 	zz.NondetInto("req", req)
 	req.Pagination = nil
@@ -70,13 +70,13 @@ func VerifHarness_C17_SellOrdersByBatch() {
 		return
 	}
 	zz.Assert(found, "C17 SellOrdersByBatch succeeds only for a known batch")
-	checkOrderList("SellOrdersByBatch", res.SellOrders, func(row *api.SellOrder) bool { return row.BatchKey == batch.Key })
+	zzvCheckOrderList("SellOrdersByBatch", res.SellOrders, func(row *api.SellOrder) bool { return row.BatchKey == batch.Key })
 	zz.Reach("query succeeds")
 }
 
 func VerifHarness_C17_SellOrdersBySeller() {
 	zzinv.Install()
-	k, _ := symKeeper()
+	k, _ := zzvSymKeeper()
 	req := &types.QuerySellOrdersBySellerRequest{}
 	zz.NondetInto("req", req)
 	req.Pagination = nil
@@ -87,13 +87,13 @@ func VerifHarness_C17_SellOrdersBySeller() {
 		zz.Reach("query fails")
 		return
 	}
-	checkOrderList("SellOrdersBySeller", res.SellOrders, func(row *api.SellOrder) bool { return zz.BytesEq(row.Seller, seller) })
+	zzvCheckOrderList("SellOrdersBySeller", res.SellOrders, func(row *api.SellOrder) bool { return zz.BytesEq(row.Seller, seller) })
 	zz.Reach("query succeeds")
 }
 
 func VerifHarness_C17_SellOrders() {
 	zzinv.Install()
-	k, _ := symKeeper()
+	k, _ := zzvSymKeeper()
 	req := &types.QuerySellOrdersRequest{}
 	zz.NondetInto("req", req)
 	req.Pagination = nil
@@ -102,6 +102,6 @@ func VerifHarness_C17_SellOrders() {
 	if err != nil {
 		return
 	}
-	checkOrderList("SellOrders", res.SellOrders, func(row *api.SellOrder) bool { return true })
+	zzvCheckOrderList("SellOrders", res.SellOrders, func(row *api.SellOrder) bool { return true })
 	zz.Reach("query succeeds")
 }
